@@ -41,7 +41,7 @@ type Profile struct {
 
 var HostileKeys = []string{"a", "b", "c", "d", "", "a/b", "m~n", "~", "/", "~1", "~0", "sensor_reading_01_celsius", "sensor_reading_02_celsius", "0", "1", "-1", "01", "x<y", "k&v", " ", "é", "😀", `q"r`, `b\s`, "\n", "-"}
 var PlainKeys = []string{"a", "b", "c", "d", "e", "f", "k", "0", "1", "zz"}
-var MergeKeys = []string{"a", "b", "c", "d", "x<y", "", "a~1b", "~0", `b\s`, `q"r`, "sensor_reading_01_celsius", "sensor_reading_02_celsius"}
+var MergeKeys = []string{"a", "b", "c", "d", "x<y", "", "a~1b", "~0", `b\s`, `q"r`, "\x01\x7f", "sensor_reading_01_celsius", "sensor_reading_02_celsius"}
 
 var HostileStrings = []string{"", "s", "x<y>&z", "\xe2\x80\xa8\xe2\x80\xa9", "\u2039a\u203a\u203c\u2027\u202a\u2030", "é😀", `q"r\`, "\b\f\n\r\t\x01", "A", "/", "~", "null", "0", "a b", "\u007f", "𝄞"}
 var PlainStrings = []string{"", "s", "A", "hello world", "null", "0", "é", "😀", "a b c"}
